@@ -140,6 +140,34 @@ func (x *Exec) resolveType(env *Env, te TypeExpr) (types.Type, Sort) {
 		t, _ := x.resolveType(env, TypeExpr{s[1:]})
 		return types.NewPointer(t), SInt
 	}
+	if strings.HasPrefix(s, "func(") {
+		// func(T1,T2)R
+		depth, end := 0, -1
+		for i := 4; i < len(s); i++ {
+			if s[i] == '(' {
+				depth++
+			} else if s[i] == ')' {
+				depth--
+				if depth == 0 {
+					end = i
+					break
+				}
+			}
+		}
+		if end < 0 {
+			specFail("malformed function type %q", s)
+		}
+		var vars []*types.Var
+		if inner := s[5:end]; inner != "" {
+			for _, pt := range strings.Split(inner, ",") {
+				t, _ := x.resolveType(env, TypeExpr{pt})
+				vars = append(vars, types.NewVar(0, nil, "", t))
+			}
+		}
+		rt, _ := x.resolveType(env, TypeExpr{s[end+1:]})
+		sig := types.NewSignatureType(nil, nil, nil, types.NewTuple(vars...), types.NewTuple(types.NewVar(0, nil, "", rt)), false)
+		return sig, SInt
+	}
 	if strings.HasPrefix(s, "[]") {
 		t, _ := x.resolveType(env, TypeExpr{s[2:]})
 		return types.NewSlice(t), SSlice
@@ -498,8 +526,8 @@ func (x *Exec) choosePatterns(bvs []*Term, body *Term) [][]*Term {
 	return [][]*Term{pat}
 }
 
-// shadowingLocal: "$i" in a loop invariant names the live local i (not the spill slot of a parameter) where a parameter of the
-// same name would otherwise be meant, e.g. "for i, p := range ..." in a method whose receiver is called i.
+// shadowingLocal: "$i" in a loop invariant names the live local i (also the slot a reassigned parameter lives in: its current
+// value) where the parameter's entry value would otherwise be meant, e.g. "for i, p := range ..." in a method whose receiver is called i.
 func (x *Exec) shadowingLocal(env *Env, name string) *ssa.Alloc {
 	if env.fr == nil {
 		return nil
@@ -507,17 +535,6 @@ func (x *Exec) shadowingLocal(env *Env, name string) *ssa.Alloc {
 	var best *ssa.Alloc
 	for _, a := range x.info(env.fr.fn).allocsByName[name] {
 		if _, live := env.fr.vals[a]; !live {
-			continue
-		}
-		spill := false
-		for _, r := range *a.Referrers() {
-			if s, ok := r.(*ssa.Store); ok && s.Addr == a {
-				if p, ok := s.Val.(*ssa.Parameter); ok && p.Name() == name {
-					spill = true
-				}
-			}
-		}
-		if spill {
 			continue
 		}
 		if best == nil || env.fr.order[a] > env.fr.order[best] {
@@ -993,6 +1010,19 @@ func (x *Exec) evalCall(env *Env, e *ECall) SV {
 		}
 		x.U.Declare(fname, rs, asorts...)
 		return SV{T: App(fname, rs, ats...), Typ: sig.Results().At(0).Type()}
+	case "decoded_has", "decoded_real", "decoded_int", "decoded_bool", "decoded_str":
+		// decoded_has(src, "Field") / decoded_real(src, "Field"): what utils.DecodeToStruct found in src for that field
+		src := arg(0)
+		lit, ok := e.Args[1].(*EStr)
+		if !ok || src.T.Sort != SIface {
+			specFail("%s(src, \"Field\"): src must be an interface value and the field a string literal", e.Fn)
+		}
+		fs := map[string]Sort{"decoded_has": SBool, "decoded_real": SReal, "decoded_int": SInt, "decoded_bool": SBool, "decoded_str": SStr}[e.Fn]
+		has, val := x.decodedTerms(src.T, lit.Val, fs)
+		if e.Fn == "decoded_has" {
+			return SV{T: has}
+		}
+		return SV{T: val}
 	case "appptr":
 		// appptr(f, v): the pointer a pure function-typed parameter f returns when called with (a pointer to) the value v
 		f, a := arg(0), arg(1)
